@@ -145,7 +145,7 @@ var kinds = []string{"file", "dir", "emptydir", "symlink", "device"}
 
 func build(rng *rand.Rand) ([]byte, string) {
 	var e enc
-	construct := []string{"name", "name", "name-nested", "surplus-goodbye", "symlink-then-dir", "symlink-then-file", "symlink-then-device", "nested-symlink-then-dir", "preexisting", "mix"}[rng.Intn(10)]
+	construct := []string{"name", "name", "name-nested", "surplus-goodbye", "symlink-then-dir", "symlink-then-file", "symlink-then-device", "nested-symlink-then-dir", "preexisting", "mix", "replace-chain", "replace-chain", "symlink-then-slashname"}[rng.Intn(13)]
 	kind := kinds[rng.Intn(len(kinds))]
 	name := hostileNames[rng.Intn(len(hostileNames))]
 	if rng.Intn(6) == 0 {
@@ -250,6 +250,43 @@ func build(rng *rand.Rand) ([]byte, string) {
 		}
 		e.goodbye()
 		tag += "|" + ln
+	case "symlink-then-slashname":
+		// a symlink leading out, then an entry whose *name* walks through it
+		ln := []string{"l", "a", "link-dir"}[rng.Intn(3)]
+		if ln != "link-dir" {
+			e.filename(ln)
+			e.entry(mLnk)
+			e.symlink([]string{"/outside", "../../../outside", ".."}[rng.Intn(3)])
+		}
+		e.filename(ln + "/" + []string{"planted", "sentinel", "sub/planted"}[rng.Intn(3)])
+		e.node(kind, rng)
+		e.goodbye()
+		tag += "|" + kind + "|" + ln
+	case "replace-chain":
+		// the same name is used several times in one directory with different kinds: what was created first is
+		// replaced later (a directory by a file by a symlink leading out ...)
+		name := []string{"a", "sentinel-dir", "x"}[rng.Intn(3)]
+		var chain []string
+		for k := 0; k < 2+rng.Intn(3); k++ {
+			kd := []string{"dir", "emptydir", "file", "symlink", "symlink-file", "device"}[rng.Intn(6)]
+			chain = append(chain, kd)
+			e.filename(name)
+			switch kd {
+			case "symlink":
+				e.entry(mLnk)
+				e.symlink([]string{"/outside", "../../../outside", "/", ".."}[rng.Intn(4)])
+			case "symlink-file":
+				e.entry(mLnk)
+				e.symlink("/outside/sentinel")
+			default:
+				e.node(kd, rng)
+			}
+		}
+		if rng.Intn(2) == 0 {
+			benign()
+		}
+		e.goodbye()
+		tag += "|" + strings.Join(chain, ">")
 	case "mix":
 		for k := 0; k < 2+rng.Intn(6); k++ {
 			switch rng.Intn(4) {
